@@ -67,6 +67,16 @@ func (e *Engine) merge2(a, b *State) (*State, bool) {
 		}
 		return nil, false
 	}
+	if len(a.events) != len(b.events) {
+		e.noteFail("different event traces")
+		return nil, false
+	}
+	for i := range a.events {
+		if a.events[i] != b.events[i] {
+			e.noteFail("different event traces")
+			return nil, false
+		}
+	}
 	base := 0
 	for base < len(a.pc) && base < len(b.pc) && a.pc[base] == b.pc[base] {
 		base++
